@@ -649,6 +649,33 @@ pub fn run(which: Which, ctx: &mut Ctx) -> Vec<Violation> {
                 },
                 |ctx, sc| run_scenario(ctx, Which::C07, sc),
             );
+            // every declared frame length 0..=2048 (and a few far values) on a 1024-byte IETF request, and every aligned
+            // total size 960..=1560 of an otherwise well-formed request of both protocols, 32 datagrams per step
+            let mut grid: Vec<Dgram> = vec![];
+            let base = StdReq { ietf: true, words: 256, nonce: Hex(vec![0x6b; 32]), srv: SrvOpt::Absent, vers: vec![VER_DRAFT13] };
+            for l in 0..=2048i32 {
+                grid.push(Dgram::Field { base: base.clone(), m: FieldMut::FrameLen(l - 1012) });
+            }
+            for far in [0x1_0000i32 + 1012 - 1012, 0x10000, 0x7fff_0000, -0x10000, i32::MAX, i32::MIN] {
+                grid.push(Dgram::Field { base: base.clone(), m: FieldMut::FrameLen(far) });
+            }
+            for ietf in [false, true] {
+                for w in 240u16..=390 {
+                    grid.push(Dgram::Std(StdReq { ietf, words: w, nonce: Hex(vec![0x6c; if ietf { 32 } else { 64 }]), srv: SrvOpt::Absent, vers: if ietf { vec![VER_DRAFT13] } else { vec![] } }));
+                }
+            }
+            let chunks: Vec<Vec<Dgram>> = grid.chunks(32).map(|c| c.to_vec()).collect();
+            let v2 = run_enum(
+                ctx,
+                "framelen-size-grid",
+                chunks.len() as u64,
+                |i| Scenario { ipv6: false, seed: Hex(vec![5; 32]), batch_size: 64, fault: 0, stats: false, steps: vec![chunks[i as usize].iter().enumerate().map(|(k, d)| Send { sock: k as u8, d: d.clone() }).collect()] },
+                |ctx, sc| run_scenario(ctx, Which::C07, sc),
+            );
+            if v2.is_empty() && ctx.shard == 0 {
+                ctx.stats.exhaustive_spaces.push("every declared frame length 0..=2048 on a 1024-byte IETF request; every aligned total size 960..=1560 of a well-formed request, both protocols".into());
+            }
+            out.extend(v2);
             if v.is_empty() && ctx.shard == 0 {
                 ctx.stats.exhaustive_spaces.push(t.pick("nonce lengths 0,12,24..1492 x both protocols x batch depth {0,6}", "every aligned nonce length 0..=1492 x both protocols x batch depth 0..=6").into());
             }
